@@ -24,7 +24,9 @@ EXPLANATION = (
     'candidate test written as closure (for_each / filter+collect / extend) or as a plain for loop; file / rank characters are '
     "recognised semantically (character 0 / 1 of the square's algebraic name) whichever helper extracts them. Parameters that every "
     "caller fills with the labelled move's piece / origin / destination are treated as those values (role parameters); a list of the "
-    "rivals' origin squares serves as the rival list."
+    "rivals' origin squares serves as the rival list. Effect variants beyond the four standard ones take the suffix of the row of the "
+    'C06 classification table (mate / check atoms) on which they are stored: a DoubleCheck stored where the opponent is in check and '
+    "not mated must be written '+'."
 )
 ASSUMPTIONS = [
     "Iterator::any returns true iff the predicate holds for some element",
@@ -666,6 +668,17 @@ def r3_assembly(ctx):
                             if d not in v[1]:
                                 tbl[nme] = val[1]
     wants = {'Check': '+', 'Checkmate': '#', 'None': '', 'NotYetCalculated': ''}
+    # further effect variants take the suffix of the row of the classification table they refine (a DoubleCheck stored where the mover's
+    # opponent is in check and not mated is written '+')
+    from . import c06 as _c06
+    try:
+        for key_, vs in _c06.effect_rows(facts).items():
+            mark = '#' if key_[0] == 1 else '+' if key_[1] == 1 else '' if key_ == (0, 0) else None
+            for v_ in vs:
+                if mark is not None:
+                    wants.setdefault(v_, mark)
+    except PathLimit:
+        pass
     ctx.ob(rule, n2, 'suffix table Check->+, Checkmate->#, else nothing', tbl == wants, found=tbl, expected=wants)
     # castle table
     n3 = AN + 'algebraic_castle'
